@@ -55,6 +55,24 @@ def variants(base):
                 for b in net["bits"]:
                     b.reverse()  # pins listed on the wire in another order
     out.append(("bus-base-5-pins-reordered", v))
+    # siblings whose names differ only in characters that are not legal in EDIF (they sanitise alike), in every scope
+    v = copy.deepcopy(base)
+    for lib in v["libs"]:
+        for d in lib["defs"]:
+            d["ports"] = d["ports"] + [fdesigns.port("tw-1", 1, "in"), fdesigns.port("tw+1", 1, "in")]
+            if d.get("insts"):
+                ref = d["insts"][0]["ref"]
+                d["insts"] = d["insts"] + [{"name": "blk[0].u", "ref": ref}, {"name": "blk(0).u", "ref": ref}]
+            if d.get("nets") is not None and d.get("insts"):
+                d["nets"] = d["nets"] + [{"name": "n$1", "bits": [[]]}, {"name": "n#1", "bits": [[]]}]
+        lib["defs"] = lib["defs"] + [{"name": "c-1", "ports": [], "insts": [], "nets": []}, {"name": "c+1", "ports": [], "insts": [], "nets": []}]
+    v["libs"] = v["libs"] + [{"name": "l-1", "defs": [{"name": "x", "ports": [], "insts": [], "nets": []}]},
+                             {"name": "l+1", "defs": [{"name": "x", "ports": [], "insts": [], "nets": []}]}]
+    out.append(("sanitised-twins", v))
+    # a library without any cell (created ahead of use / emptied)
+    v = copy.deepcopy(base)
+    v["libs"] = [{"name": "empty_first", "defs": []}] + v["libs"] + [{"name": "empty_last", "defs": []}]
+    out.append(("empty-libraries", v))
     # names that are not legal EDIF identifiers because of one character, at each position
     for tag, f in (("illegal-last-char", lambda n: n + "$"), ("illegal-first-char", lambda n: "$" + n),
                    ("illegal-middle-char", lambda n: n[:1] + "$" + n[1:])):
@@ -143,6 +161,16 @@ def worker(case):
         top.add_child(x, position=0)
         top.add_cable(s.Cable(name=old_c.name.swapcase() if old_c.name.swapcase() != old_c.name else old_c.name + "-"), position=0)
         top.cables[0].create_wire()
+    if kind == "api" and case[2] == "library-appended-after-export":
+        # exported once; then a new library is appended (it comes *after* its user in the netlist) and the top
+        # cell instantiates one of its cells
+        with core.quiet():
+            s.compose(n, os.path.join(scratch, "first_%d.edf" % os.getpid()))
+        top = n.top_instance.reference
+        newlib = n.create_library(name="voters")
+        vdef = newlib.create_definition(name="voter")
+        vdef.create_port(name="v", pins=1)
+        top.create_child(name="vote0", reference=vdef)
     before = strip(canon.canon_netlist(n))
     key = core.digest((repr(before), order))
     out = os.path.join(scratch, "rt_%d.edf" % os.getpid())
@@ -196,6 +224,7 @@ def cases(tier):
             for order in core.ORDER_VARIANTS:
                 out.append(("api", base, vi, order))
         out.append(("api", base, "edited-after-export", "asc"))
+        out.append(("api", base, "library-appended-after-export", "asc"))
     for desc in design.family_hier(tier, variants=("plain", "two-libraries", "dangling-nets")):
         if tier == "thorough" or desc[0] in ("K1-chain2", "K8-bus", "K4-wire-only") or sum(desc[1]) % 11 == 0:
             out.append(("hier", desc, "asc"))
